@@ -38,6 +38,7 @@ def run(ctx):
     ctx.do(rule_id_directory_syntax)
     ctx.do(rule_newest)
     ctx.do(rule_all_versions_kept)
+    ctx.do(rule_every_member_is_added)
     ctx.do(rule_memory_query_scans_everything)
     ctx.do(rule_save_load)
     ctx.do(rule_encoding_agreement)
@@ -617,3 +618,31 @@ def rule_memory_query_scans_everything(ctx, rule_id="C11.all-versions-kept"):
               "that satisfy every filter are missing, and the memory store disagrees with the filesystem store", file=rel,
               line=narrowed[0].lineno if narrowed else fi.node.lineno, function=fi.qualname,
               expected="apply_common_filters(<everything derived from self._data.values()>, query)", found=[short(x) for x in narrowed][:3])
+
+
+def rule_every_member_is_added(ctx, R="C11.all-versions-kept"):
+    """add() of a bundle or a list stores EVERY member: the loops of FileSystemSink.add (and of the memory store's _add) that
+    hand the members on one by one do so unconditionally.  A test in such a loop -- skip a member whose id was written
+    already -- drops versions: a bundle holding three versions of one id leaves one on disk while a plain list (and the memory
+    store) keep three."""
+    run = ctx.run
+    prog = ctx.prog
+    n = 0
+    for fid in ("stix2.datastore.filesystem::FileSystemSink.add", "stix2.datastore.memory::_add"):
+        fi = prog.func(fid)
+        for lp in body_walk(fi.node):
+            if not isinstance(lp, ast.For):
+                continue
+            calls = [c for c in ast.walk(lp) if isinstance(c, ast.Call) and call_simple_name(c) in ("add", "_add")
+                     and any(norm(a_) == norm(lp.target) for a_ in c.args)]
+            if not calls:
+                continue
+            n += 1
+            cond = [t for c in calls for t, _p, _ in guard_chain(c, stop=lp)]
+            skips = [x for st in lp.body for x in ast.walk(st) if isinstance(x, (ast.Continue, ast.Break))]
+            run.check(not cond and not skips, R, key(fi.module.relpath, fi.qualname, "every-member-is-added:%s" % short(lp.iter, 30)),
+                      "a member of the bundle / list given to add() is handed on only under a condition: members (versions) are "
+                      "dropped silently", file=fi.module.relpath, line=lp.lineno, function=fi.qualname,
+                      expected="for m in <members>: <add>(m, ...)", found=[short(t, 60) for t in cond] + [short(x, 20) for x in skips])
+    if n < 3:
+        raise AnalysisError("fewer than 3 member loops found in the sinks (%d)" % n)
